@@ -111,7 +111,15 @@ func c08Populate(st reflect.Type, k int) reflect.Value {
 			}
 			fv.Set(reflect.ValueOf(&it).Elem())
 		case vocab.KItems:
-			fv.Set(reflect.ValueOf(ap.ItemCollection{ap.IRI(fmt.Sprintf("https://example.com/%s/%d/a", strings.ToLower(f.Name), n)), ap.IRI(fmt.Sprintf("https://example.com/%s/%d/b", strings.ToLower(f.Name), n))}))
+			a, b := ap.IRI(fmt.Sprintf("https://example.com/%s/%d/a", strings.ToLower(f.Name), n)), ap.IRI(fmt.Sprintf("https://example.com/%s/%d/b", strings.ToLower(f.Name), n))
+			if k%2 == 1 {
+				// embedded members with instants, oldest first: a helper that "tidies" the members it presents shows here
+				t0 := time.Date(2020, 1, 1, 0, 0, 0, 0, time.UTC).Add(time.Duration(n) * time.Hour)
+				fv.Set(reflect.ValueOf(ap.ItemCollection{&ap.Object{ID: a, Type: ap.NoteType, Published: t0}, &ap.Object{ID: b, Type: ap.NoteType, Published: t0.Add(time.Hour)},
+					&ap.Object{ID: a + "/c", Type: ap.NoteType, Published: t0.Add(2 * time.Hour)}}))
+			} else {
+				fv.Set(reflect.ValueOf(ap.ItemCollection{a, b}))
+			}
 		case vocab.KTime:
 			fv.Set(reflect.ValueOf(time.Date(2020, 1, 1, 0, 0, 0, 0, time.UTC).Add(time.Duration(n) * time.Hour)))
 		case vocab.KDur:
@@ -196,6 +204,8 @@ func c08Run(c c08Cell, values int) (ds []keyed, info string) {
 		if c.form == "val" {
 			src = sp.Elem().Interface().(ap.Item)
 		}
+		// what the original held before it was viewed: the view is compared with this, not with the live value it may alias
+		before := reflect.ValueOf(vocab.Clone(sp.Interface())).Elem()
 		var res interface{}
 		var err error
 		if pi := evSafe(func() { res, err = c.h.call(src) }); pi != nil {
@@ -242,8 +252,8 @@ func c08Run(c c08Cell, values int) (ds []keyed, info string) {
 			if !ok {
 				continue
 			}
-			got, want := view.Field(i).Interface(), sp.Elem().FieldByIndex(sf.Index).Interface()
-			if !reflect.DeepEqual(got, want) {
+			got, want := view.Field(i).Interface(), before.FieldByIndex(sf.Index).Interface()
+			if len(vocab.ContentDiff(want, got)) > 0 {
 				ds = append(ds, keyed{key("read:" + vf.Name), fmt.Sprintf("view.%s = %s, the original's %s = %s", vf.Name, clipStr(vocab.Dump(got), 150), sf.Name, clipStr(vocab.Dump(want), 150))})
 			}
 		}
